@@ -122,17 +122,36 @@ func (e *Engine) check(mux bool, pkts []pkt, st *sim.Stream, strict bool) (oc *o
 		}
 	}()
 	if mux {
-		got, note := consumeMux(st, len(pkts))
+		want := 0
+		for _, p := range pkts {
+			if !isReservedFrame(p.Frame) {
+				want++
+			}
+		}
+		got, note := consumeMux(st, want)
 		if note != "" {
 			return &outcome{"reader_error", note}
 		}
-		for i := range pkts {
-			if got[i].Frame != pkts[i].Frame {
-				return &outcome{"frame_mismatch", fmt.Sprintf("packet %d: frame %#x, written %#x", i, got[i].Frame, pkts[i].Frame)}
+		// Frames written with a reserved type (0x00, END, ESC) are line noise to
+		// a SLIPMUX reader: it may drop them (this reader does) or hand them
+		// over as written; every other frame is delivered exactly, in order, and
+		// nothing that was never written is delivered.
+		j := 0
+		for i := range got {
+			for j < len(pkts) && isReservedFrame(pkts[j].Frame) &&
+				!(got[i].Frame == pkts[j].Frame && bytes.Equal(got[i].Payload, pkts[j].Payload)) {
+				j++
 			}
-			if !bytes.Equal(got[i].Payload, pkts[i].Payload) {
-				return &outcome{"payload_mismatch", fmt.Sprintf("packet %d: got % x, written % x", i, got[i].Payload, pkts[i].Payload)}
+			if j >= len(pkts) {
+				return &outcome{"never_written", fmt.Sprintf("packet %d: frame %#x payload % x was never written", i, got[i].Frame, got[i].Payload)}
 			}
+			if got[i].Frame != pkts[j].Frame {
+				return &outcome{"frame_mismatch", fmt.Sprintf("packet %d: frame %#x, written %#x", i, got[i].Frame, pkts[j].Frame)}
+			}
+			if !bytes.Equal(got[i].Payload, pkts[j].Payload) {
+				return &outcome{"payload_mismatch", fmt.Sprintf("packet %d: got % x, written % x", i, got[i].Payload, pkts[j].Payload)}
+			}
+			j++
 		}
 		return nil
 	}
@@ -151,6 +170,10 @@ func (e *Engine) check(mux bool, pkts []pkt, st *sim.Stream, strict bool) (oc *o
 // isIPFrame is the SLIPMUX draft's own definition (not the implementation's
 // helper): an IPv4 packet starts with 0x45..0x4f, an IPv6 packet with 0x60..0x6f;
 // only those are sent without a frame byte.
+// isReservedFrame: the frame types the SLIPMUX draft reserves because they
+// collide with the SLIP special bytes, and 0x00.
+func isReservedFrame(f byte) bool { return f == 0xc0 || f == 0xdb || f == 0x00 }
+
 func isIPFrame(f byte) bool { return (f >= 0x45 && f <= 0x4f) || (f >= 0x60 && f <= 0x6f) }
 
 // faultWriter is the sender's transport: Write call number failAt fails with
@@ -230,7 +253,11 @@ func (e *Engine) Run(t *tape.Tape, keep bool) *sim.Result {
 	for i := range pkts {
 		if mux {
 			var f byte
-			switch t.Pick(3, 2, 2, 2) {
+			noise := t.Pick(6, 4, 4, 4, 2)
+			switch noise {
+			case 4:
+				// line noise: a frame with a reserved type, never as the last one
+				f = []byte{0xc0, 0xdb, 0x00}[t.Draw(3)]
 			case 0:
 				f = byte(t.Draw(256))
 				if f%8 == 0 {
@@ -247,7 +274,7 @@ func (e *Engine) Run(t *tape.Tape, keep bool) *sim.Result {
 			case 3:
 				f = byte(0x60 + t.Draw(16))
 			}
-			if f == slipb.END || f == slipb.ESC || f == 0 {
+			if isReservedFrame(f) && (noise != 4 || i == len(pkts)-1) {
 				f = 0x0a
 			}
 			min := 1
